@@ -21,7 +21,7 @@ claim("C17", "sweep",
       "DESIGN.md section 3 C17")
 claim("C04", "sweep",
       "exhaustive enumeration of both address spaces with a round-trip oracle, plus rapid sampling",
-      "For each of the 4 mappers all 2^24 bus addresses are pushed through bus->pak->bus->pak (must return to the same pak cell) and all 2^24 pak addresses through pak->bus->pak (must stay in the same memory class at the same offset in its 8 KiB page). The domain is finite and is enumerated completely on every run, so within the stated reading of 'class' and 'page' the verdict is exact.",
+      "For each of the 4 mappers all 2^24 bus addresses are pushed through bus->pak->bus->pak (must return to the same pak cell) and all 2^24 pak addresses through pak->bus->pak (must stay in the same memory class at the same offset in its 8 KiB page). A second process repeats the sweep with the mappers and directions in reverse order (the functions are stateless: no answer may depend on which was called first). The domain is finite and is enumerated completely on every run, so within the stated reading of 'class' and 'page' the verdict is exact.",
       "Trusted: class windows as given in the property statement (WRAM mirrors $F70000+ count as WRAM).",
       "DESIGN.md section 3 C04")
 claim("C05", "sweep",
